@@ -204,6 +204,7 @@ func run(ck *checks.Check, tier string, seed int64) int {
 	// merge
 	tot := mc.Result{Counters: map[string]int64{}}
 	var maxWall float64
+	sampleSeen := map[string]bool{}
 	for _, r := range results {
 		if r == nil {
 			continue
@@ -216,11 +217,11 @@ func run(ck *checks.Check, tier string, seed int64) int {
 		for k, v := range r.Counters {
 			tot.Counters[k] += v
 		}
-		if len(tot.Samples) < 12 {
-			for _, s := range r.Samples {
-				if len(tot.Samples) < 12 {
-					tot.Samples = append(tot.Samples, s)
-				}
+		for _, s := range r.Samples {
+			js, _ := json.Marshal(s)
+			if len(tot.Samples) < 12 && !sampleSeen[string(js)] {
+				sampleSeen[string(js)] = true
+				tot.Samples = append(tot.Samples, s)
 			}
 		}
 		tot.Violations = append(tot.Violations, r.Violations...)
